@@ -406,7 +406,7 @@ func regimeFamilies(c *hx.Ctx, cfg gc.Cfg, r *hx.Rng) {
 		firstLB uint64 // 0: right behind the array
 	}
 	fgs := []fg{{512, 128, 2, 2048}, {4096, 128, 2, 256}, {4096, 256, 2, 0}, {4096, 64, 2, 0}, {512, 128, 4, 2048}, {512, 32, 2, 34},
-		{4096, 4, 2, 6}, {512, 30, 2, 34}, // the array does not end on a sector boundary: trigger of gpt-backup-array-overlaps-header
+		{4096, 4, 2, 6}, {512, 30, 2, 34}, // the array does not end on a sector boundary (was the trigger of gpt-backup-array-overlaps-header)
 		{512, 256, 2, 0}, {512, 4, 2, 34}}
 	nf := c.N(8, 50)
 	for i := 0; i < nf; i++ {
@@ -434,10 +434,10 @@ func regimeFamilies(c *hx.Ctx, cfg gc.Cfg, r *hx.Rng) {
 			p.regimes = append(p.regimes, "regime.foreign.first-usable-lba-aligned")
 		}
 		if (uint64(g.count)*128)%uint64(g.lss) != 0 {
+			// finding gpt-backup-array-overlaps-header is repaired (b8755c1: array sectors rounded up) and the model
+			// (Model/GptGeom.lean writeUp) rounds up too: these pairs are two-sided model cases like the others; a
+			// Write that rounds down again shows as a correspondence mismatch and as crash states that do not read
 			p.regimes = append(p.regimes, "regime.foreign.array-not-sector-multiple")
-			if !p.nguid {
-				p.finding, p.okStages = "gpt-backup-array-overlaps-header", map[int]bool{2: true, 3: true}
-			}
 		}
 		p.desc = fmt.Sprintf("foreign GPT (%d entries, array at LBA %d, first usable %d, lss=%d, %d sectors) read, edit=%s, written back", g.count, g.arrLBA, first, g.lss, sectors, what)
 		run(p)
